@@ -256,7 +256,7 @@ pub fn run(ctx: &mut Ctx) {
         }
     }
     // partial: legal and illegal chunk sequences
-    let n_partial = ctx.pick(1500, 12000);
+    let n_partial = ctx.pick(1500, 150000);
     for i in 0..n_partial {
         let tag: u8 = if i % 4 == 3 { ctx.rng.gen_range(0..64) } else { DATA_TAGS[i % 5] };
         let first: u8 = match i % 7 {
@@ -287,7 +287,7 @@ pub fn run(ctx: &mut Ctx) {
         raw(ctx, &s, "declared_2^30");
     }
     // raw: mutated small framings and random bytes
-    let n_raw = ctx.pick(3000, 30000);
+    let n_raw = ctx.pick(3000, 400000);
     for i in 0..n_raw {
         let data: Vec<u8> = if i % 3 == 0 {
             let n = ctx.rng.gen_range(0..24);
